@@ -16,7 +16,7 @@ META = {
     ),
     "anchors": ["abelian_core.AbelianArray.gen_valid_sectors", "symmetries.get_symmetry"],
     "floors": {
-        "quick": {"evaluations": 20000, "distinct_nontrivial": 1500, "tables": {"axioms": 10000, "sectors": 3000}},
+        "quick": {"evaluations": 20000, "distinct_nontrivial": 1500, "tables": {"axioms": 10000, "sectors": 3000, "huge/candidates>65536*last": 8}},
         "thorough": {"evaluations": 300000, "distinct_nontrivial": 30000, "tables": {"axioms": 100000, "sectors": 50000}},
     },
     "exhaustive": {"quick": False, "thorough": True},
@@ -210,6 +210,65 @@ def check_sectors(ctx, sym, nd, css, duals, rng):
                     _judge(ctx, "random", list(o.value.blocks), expect, desc)
 
 
+def huge_case(ctx, rng):
+    """Enumerations with 10^5 .. 10^6 candidate tuples (7-10 legs, 4-7 charges each): beyond
+    any table-size threshold of the generator. Oracle: an incremental count/sum-free brute force
+    over the same candidate space (meet in the middle), compared as sets."""
+    import itertools
+
+    sr = ctx.sr
+    from symv import gen
+
+    sym = rng.choice(["U1", "U1", "Z4", "U1U1", "Z2Z2", "Z2"])
+    if sym == "U1":
+        nleg, mk = rng.randint(7, 8), (lambda: list(range(-rng.randint(2, 3), rng.randint(2, 3) + 1)))
+    elif sym == "Z4":
+        nleg, mk = rng.randint(9, 10), (lambda: [0, 1, 2, 3])
+    elif sym == "U1U1":
+        nleg, mk = 6, (lambda: [(a, b) for a in range(-1, 2) for b in range(-1, 2)])
+    elif sym == "Z2Z2":
+        nleg, mk = rng.randint(9, 10), (lambda: [(0, 0), (0, 1), (1, 0), (1, 1)])
+    else:
+        nleg, mk = rng.randint(17, 18), (lambda: [0, 1])
+    css = [mk() for _ in range(nleg)]
+    duals = [rng.random() < 0.5 for _ in range(nleg)]
+    ncand = 1
+    for cs in css:
+        ncand *= len(cs)
+    ctx.count("huge", "candidates>65536*last" if ncand // len(css[-1]) > 65536 else "candidates-smaller")
+    # a reachable total charge
+    charge = R.sector_charge(sym, [rng.choice(cs) for cs in css], duals)
+    # oracle: meet in the middle over signed partial sums
+    h = nleg // 2
+    left = {}
+    for sec in itertools.product(*css[:h]):
+        left.setdefault(R.sector_charge(sym, sec, duals[:h]), []).append(sec)
+    expect = set()
+    for sec in itertools.product(*css[h:]):
+        need = R.comb(sym, [charge, R.neg(sym, R.sector_charge(sym, sec, duals[h:]))])
+        for l in left.get(need, ()):
+            expect.add(l + sec)
+    indices = [sr.BlockIndex({c: 1 for c in cs}, dual=d) for cs, d in zip(css, duals)]
+    cls, extra, kind = gen.pick_class(sr, rng, sym, False)
+    desc = {"symmetry": sym, "class": cls.__name__, "legs": nleg, "charges_per_leg": [len(cs) for cs in css], "duals": duals, "charge": repr(charge), "candidates": ncand}
+    o = ctx.call(lambda: list(cls(indices=indices, charge=charge, **extra).gen_valid_sectors()))
+    ctx.evaluated()
+    ctx.count("sectors", f"{sym}:gen_valid_sectors-huge")
+    if not o.ok:
+        ctx.violation(f"gen_valid_sectors-raises-{o.excname}", f"{desc}: {o.exc!r}", desc)
+        return
+    got = o.value
+    gs = set(got)
+    if len(gs) != len(got):
+        ctx.violation("sector-repeated", f"gen_valid_sectors {desc}: {len(got) - len(gs)} repeated sectors", desc)
+    elif gs - expect:
+        ctx.violation("sector-extra", f"gen_valid_sectors {desc}: {len(gs - expect)} extra sectors, e.g. {sorted(gs - expect, key=repr)[:2]}", desc)
+    elif expect - gs:
+        ctx.violation("sector-missing", f"gen_valid_sectors {desc}: {len(expect - gs)} of {len(expect)} sectors missing, e.g. {sorted(expect - gs, key=repr)[:2]}", desc)
+    else:
+        ctx.nontrivial(("huge", sym, nleg, tuple(len(cs) for cs in css), tuple(duals)))
+
+
 def _judge(ctx, what, got, expect, desc):
     gs = set(got)
     es = set(expect)
@@ -248,3 +307,5 @@ def run(ctx):
                 continue
             rng = random.Random(f"{ctx.seed}:{sym}:{k}")
             ctx.run_case(check_sectors, ctx, sym, nd, css, duals, rng)
+    for _, rng in ctx.cases("huge", ctx.budget(24, 300)):
+        ctx.run_case(huge_case, ctx, rng)
